@@ -28,7 +28,9 @@ vars == <<l, T, viol, fired>>
 NoTree == [par |-> [x \in {} |-> ""], num |-> [x \in {} |-> 0], inv |-> {}, txs |-> [x \in {} |-> {}]]
 AddNew(vs, new) == vs \cup { v \in new : ~\E w \in vs : w[1] = v[1] /\ w[2] = v[2] }
 
-ObsViol(o, phase, mode, line) == { <<name, Class(name, T, o) \cup {phase, mode}, line>> : name \in Failing(T, o) }
+\* extra = WHERE the crash fell (restart / recovered events): {"last_<kind of the last completed write>", position w.r.t. head moves}
+ObsViol(o, phase, mode, extra, line) == { <<name, Class(name, T, o) \cup {phase, mode} \cup extra, line>> : name \in Failing(T, o) }
+Where(e) == { e.where[i] : i \in DOMAIN e.where }
 
 \* "it has the same head and state as a node that never crashed"
 NotWedged(e) == "panic" \notin DOMAIN e /\ e.err2 = "" /\ e.obs.head = e.ref.head /\ e.obs.root = e.ref.root /\ e.obs.st
@@ -51,22 +53,22 @@ Step ==
                        txs |-> [b \in DOMAIN e.txs |-> { e.txs[b][i] : i \in DOMAIN e.txs[b] }]]
              /\ UNCHANGED <<viol, fired>>
         [] e.ev = "import" ->
-             /\ viol' = AddNew(viol, ObsViol(e.obs, "nocrash", e.mode, l))
+             /\ viol' = AddNew(viol, ObsViol(e.obs, "nocrash", e.mode, {}, l))
              /\ fired' = [fired EXCEPT !.Imports = @ + 1, !.Reorgs = @ + (IF e.mode = "reorg" THEN 1 ELSE 0),
                                        !.Rejected = @ + (IF e.err # "" THEN 1 ELSE 0),
                                        !.Lookups = @ + (IF HasLookup(e.obs) THEN 1 ELSE 0)]
              /\ UNCHANGED T
         [] e.ev = "ref" ->
-             /\ viol' = AddNew(viol, ObsViol(e.obs, "nocrash", "extend", l))
+             /\ viol' = AddNew(viol, ObsViol(e.obs, "nocrash", "extend", {}, l))
              /\ UNCHANGED <<T, fired>>
         [] e.ev = "restart" ->
-             /\ viol' = AddNew(viol, IF e.ok THEN ObsViol(e.obs, "crash", e.mode, l)
-                                     ELSE { <<"RestartSucceeds", {"error", e.mode}, l>> })
+             /\ viol' = AddNew(viol, IF e.ok THEN ObsViol(e.obs, "crash", e.mode, Where(e), l)
+                                     ELSE { <<"RestartSucceeds", {"error", e.mode} \cup Where(e), l>> })
              /\ fired' = [fired EXCEPT !.Restarts = @ + 1]
              /\ UNCHANGED T
         [] e.ev = "recovered" ->
-             /\ viol' = AddNew(viol, (IF "panic" \in DOMAIN e THEN {} ELSE ObsViol(e.obs, "recovered", e.mode, l))
-                                     \cup (IF NotWedged(e) THEN {} ELSE { <<"NotWedged", {WedgedClass(e), "recovered", e.mode}, l>> }))
+             /\ viol' = AddNew(viol, (IF "panic" \in DOMAIN e THEN {} ELSE ObsViol(e.obs, "recovered", e.mode, Where(e), l))
+                                     \cup (IF NotWedged(e) THEN {} ELSE { <<"NotWedged", {WedgedClass(e), "recovered", e.mode} \cup Where(e), l>> }))
              /\ fired' = [fired EXCEPT !.Recovered = @ + 1]
              /\ UNCHANGED T
         [] OTHER -> UNCHANGED <<T, viol, fired>>
